@@ -4,6 +4,7 @@
 use crate::common::*;
 use crate::enc::*;
 use petgraph::algo;
+use petgraph::data::DataMap;
 use petgraph::visit::*;
 use petgraph::{Directed, Undirected};
 use serde_json::{json, Value};
@@ -526,6 +527,210 @@ pub fn c16_graph(out: &mut Out, ag: &AG, rng: &mut Rng) {
     }
 }
 
+// ------------------------------------------------------------------------------------------ C15
+
+fn c15_match<G>(g: G, fwd: &[G::NodeId], inv: &std::collections::HashMap<G::NodeId, usize>, f: &mut Fields)
+where
+    G: Visitable + NodeIndexable + IntoNodeIdentifiers + IntoEdges + NodeCount + Copy,
+    G::NodeId: Eq + std::hash::Hash + Copy,
+    G::EdgeId: Eq + std::hash::Hash,
+{
+    let n = fwd.len();
+    let dump = |m: &algo::Matching<G>| {
+        json!({
+            "mate": (0..n).map(|v| m.mate(fwd[v]).map(|x| inv[&x] as i64).unwrap_or(-1)).collect::<Vec<_>>(),
+            "edges": m.edges().map(|(a, b)| json!([inv[&a], inv[&b]])).collect::<Vec<_>>(),
+            "nodes": m.nodes().map(|a| inv[&a]).collect::<Vec<_>>(),
+            "len": m.len(), "is_empty": m.is_empty(), "perfect": m.is_perfect(),
+            "cn": (0..n).map(|v| m.contains_node(fwd[v])).collect::<Vec<_>>(),
+            "ce": (0..n).map(|a| (0..n).map(|b| m.contains_edge(fwd[a], fwd[b])).collect::<Vec<_>>()).collect::<Vec<_>>(),
+        })
+    };
+    f.insert("greedy".into(), run(|| dump(&algo::greedy_matching(g))));
+    f.insert("maxm".into(), run(|| dump(&algo::maximum_matching(g))));
+}
+
+fn c15_flow<G>(g: G, fwd: &[G::NodeId], inv: &std::collections::HashMap<G::NodeId, usize>, f: &mut Fields, rng: &mut Rng)
+where
+    G: NodeCount + EdgeCount + IntoEdgesDirected + EdgeIndexable + NodeIndexable + DataMap + Visitable + IntoEdgeReferences + Copy,
+    G::EdgeWeight: EW + std::ops::Sub<Output = G::EdgeWeight> + algo::PositiveMeasure,
+    G::NodeId: Eq + std::hash::Hash + Copy,
+{
+    let n = fwd.len();
+    if n < 2 {
+        return;
+    }
+    let mut cases = vec![];
+    for _ in 0..3 {
+        let s = rng.below(n);
+        let mut t = rng.below(n);
+        if t == s {
+            t = (s + 1) % n;
+        }
+        cases.push((s, t));
+    }
+    f.insert("flow".into(), run(|| json!(cases.iter().map(|&(s, t)| {
+        let (v, flows) = algo::ford_fulkerson(g, fwd[s], fwd[t]);
+        let edges: Vec<Value> = g.edge_references().map(|e| {
+            let ix = EdgeIndexable::to_index(&g, e.id());
+            json!([inv[&e.source()], inv[&e.target()], e.weight().to_i64(), flows.get(ix).map(|x| x.to_i64()).unwrap_or(-777)])
+        }).collect();
+        json!({"s": s, "t": t, "value": v.to_i64(), "edges": edges})
+    }).collect::<Vec<_>>())));
+}
+
+pub fn c15_graph(out: &mut Out, ag: &AG, rng: &mut Rng) {
+    if ag.n == 0 || ag.edges.len() > 10 {
+        return;
+    }
+    each_enc!(out, "C15", ag, rng, [graph, stable, matrixd, matrixu, map, csr, list], |g, fwd, inv| {
+        let mut f = Fields::new();
+        c15_match(&g, &fwd, &inv, &mut f);
+        f
+    });
+    if ag.directed {
+        // capacities: |w|
+        let cap = AG { n: ag.n, directed: true, edges: ag.edges.iter().map(|&(s, t, w)| (s, t, w.abs())).collect() };
+        let mut r2 = rng.clone();
+        if rng.chance(1, 2) {
+            each_enc!(out, "C15", &cap, rng, u32, [graph, stable], |g, fwd, inv| {
+                let mut f = Fields::new();
+                c15_flow(&g, &fwd, &inv, &mut f, &mut r2.clone());
+                f
+            });
+        } else {
+            each_enc!(out, "C15", &cap, rng, f64, [graph, stable], |g, fwd, inv| {
+                let mut f = Fields::new();
+                c15_flow(&g, &fwd, &inv, &mut f, &mut r2.clone());
+                f
+            });
+        }
+        r2.next();
+    }
+}
+
+// ------------------------------------------------------------------------------------------ C13
+
+/// simple graph (loops allowed) with node weights and edge weights in {0,1}
+fn simple_pair_graph(rng: &mut Rng, n: usize, directed: bool, dens: u32) -> (AG, Vec<i32>) {
+    let mut edges = vec![];
+    for s in 0..n {
+        for t in 0..n {
+            if !directed && s > t {
+                continue;
+            }
+            let p = if s == t { dens / 2 } else { dens };
+            if rng.chance(p, 10) {
+                edges.push((s, t, rng.below(2) as i64));
+            }
+        }
+    }
+    let nw = (0..n).map(|_| rng.below(2) as i32).collect();
+    (AG { n, directed, edges }, nw)
+}
+
+fn build_iso<Ty: petgraph::EdgeType>(ag: &AG, nw: &[i32], hist: usize, rng: &mut Rng) -> (petgraph::Graph<i32, i64, Ty, u32>, Vec<petgraph::graph::NodeIndex<u32>>) {
+    // build with abstract ids as weights (so that histories can renumber), then put the real node weights
+    let (g0, fwd) = build_graph::<Ty, i64>(ag, hist, rng);
+    let g = g0.map(|_, &a| nw[a as usize], |_, &w| w);
+    (g, fwd)
+}
+
+fn c13_pair<Ty: petgraph::EdgeType>(out: &mut Out, a0: &AG, w0: &[i32], a1: &AG, w1: &[i32], rng: &mut Rng) {
+    for hist in 0..3 {
+        let (g0, f0) = build_iso::<Ty>(a0, w0, hist, rng);
+        let (g1, f1) = build_iso::<Ty>(a1, w1, (hist + 1) % 3, rng);
+        // index -> abstract id
+        let mut b0 = vec![0usize; a0.n];
+        for (i, x) in f0.iter().enumerate() { b0[x.index()] = i; }
+        let mut b1 = vec![0usize; a1.n];
+        for (i, x) in f1.iter().enumerate() { b1[x.index()] = i; }
+        let mut f = Fields::new();
+        f.insert("iso".into(), run(|| json!(algo::is_isomorphic(&g0, &g1))));
+        f.insert("isom".into(), run(|| json!(algo::is_isomorphic_matching(&g0, &g1, |a, b| a == b, |a, b| a == b))));
+        f.insert("sub".into(), run(|| json!(algo::is_isomorphic_subgraph(&g0, &g1))));
+        f.insert("subm".into(), run(|| json!(algo::is_isomorphic_subgraph_matching(&g0, &g1, |a, b| a == b, |a, b| a == b))));
+        let maps = |it: Option<Box<dyn Iterator<Item = Vec<usize>> + '_>>| match it {
+            None => json!(["none"]),
+            Some(it) => {
+                let v: Vec<Vec<usize>> = it.take(600).collect();
+                if v.len() >= 600 { json!(["overflow"]) }
+                else { json!(["some", v.iter().map(|m| (0..a0.n).map(|i| b1[m[f0[i].index()]]).collect::<Vec<_>>()).collect::<Vec<_>>()]) }
+            }
+        };
+        f.insert("iter".into(), run(|| {
+            let mut nm = |_: &i32, _: &i32| true;
+            let mut em = |_: &i64, _: &i64| true;
+            let (r0, r1) = (&g0, &g1);
+            let it = algo::subgraph_isomorphisms_iter(&r0, &r1, &mut nm, &mut em);
+            maps(it.map(|i| Box::new(i) as Box<dyn Iterator<Item = Vec<usize>>>))
+        }));
+        f.insert("iterm".into(), run(|| {
+            let mut nm = |a: &i32, b: &i32| a == b;
+            let mut em = |a: &i64, b: &i64| a == b;
+            let (r0, r1) = (&g0, &g1);
+            let it = algo::subgraph_isomorphisms_iter(&r0, &r1, &mut nm, &mut em);
+            maps(it.map(|i| Box::new(i) as Box<dyn Iterator<Item = Vec<usize>>>))
+        }));
+        f.insert("n1".into(), json!(a1.n));
+        f.insert("E1".into(), a1.edges_json());
+        f.insert("nw0".into(), json!(w0));
+        f.insert("nw1".into(), json!(w1));
+        out.rec("C13", "graph", HISTS[hist], a0, f);
+    }
+}
+
+pub fn c13_sweep(seed: u64, pairs: usize, out: &mut Out) {
+    let mut rng = Rng::new(seed);
+    for k in 0..pairs {
+        let directed = k % 2 == 0;
+        let n1 = rng.below(5);
+        let dens = 2 + rng.below(6) as u32;
+        let (a1, w1) = simple_pair_graph(&mut rng, n1, directed, dens);
+        // g0: a relabelled copy, a perturbed copy, an induced subgraph, or independent
+        let (a0, w0) = match k % 5 {
+            0 => {
+                let mut p: Vec<usize> = (0..n1).collect();
+                rng.shuffle(&mut p);
+                let mut w = vec![0; n1];
+                for i in 0..n1 { w[p[i]] = w1[i]; }
+                (a1.relabel(&p), w)
+            }
+            1 => {
+                // same degree-ish: move one edge
+                let mut p: Vec<usize> = (0..n1).collect();
+                rng.shuffle(&mut p);
+                let mut a = a1.relabel(&p);
+                if !a.edges.is_empty() && n1 > 0 {
+                    let i = rng.below(a.edges.len());
+                    a.edges[i].1 = rng.below(n1);
+                    let d = a.directed;
+                    let mut seen = std::collections::HashSet::new();
+                    a.edges.retain(|&(s, t, _)| seen.insert(if d || s <= t { (s, t) } else { (t, s) }));
+                }
+                let mut w = vec![0; n1];
+                for i in 0..n1 { w[p[i]] = w1[i]; }
+                (a, w)
+            }
+            2 | 3 => {
+                // induced subgraph on a random subset (relabelled), maybe with one edge dropped
+                let keep: Vec<usize> = (0..n1).filter(|_| rng.chance(2, 3)).collect();
+                let mut pos = vec![usize::MAX; n1];
+                let mut order: Vec<usize> = (0..keep.len()).collect();
+                rng.shuffle(&mut order);
+                for (j, &v) in keep.iter().enumerate() { pos[v] = order[j]; }
+                let mut edges: Vec<(usize, usize, i64)> = a1.edges.iter().filter(|e| pos[e.0] != usize::MAX && pos[e.1] != usize::MAX).map(|e| (pos[e.0], pos[e.1], e.2)).collect();
+                if k % 5 == 3 && !edges.is_empty() { let i = rng.below(edges.len()); edges.remove(i); }
+                let mut w = vec![0; keep.len()];
+                for &v in &keep { w[pos[v]] = w1[v]; }
+                (AG { n: keep.len(), directed, edges }, w)
+            }
+            _ => { let n0 = rng.below(4); let d2 = 2 + rng.below(6) as u32; simple_pair_graph(&mut rng, n0, directed, d2) }
+        };
+        if directed { c13_pair::<Directed>(out, &a0, &w0, &a1, &w1, &mut rng); } else { c13_pair::<Undirected>(out, &a0, &w0, &a1, &w1, &mut rng); }
+    }
+}
+
 pub fn prop_fn(prop: &str) -> fn(&mut Out, &AG, &mut Rng) {
     match prop {
         "C09" => c09_graph,
@@ -533,6 +738,7 @@ pub fn prop_fn(prop: &str) -> fn(&mut Out, &AG, &mut Rng) {
         "C11" => c11_graph,
         "C12" => c12_graph,
         "C16" => c16_graph,
+        "C15" => c15_graph,
         _ => panic!("unknown property {}", prop),
     }
 }
@@ -555,6 +761,7 @@ pub fn wrange(prop: &str) -> (i64, i64) {
     match prop {
         "C10" => (0, 3),
         "C11" => (-3, 4),
+        "C15" => (0, 4),
         "C12" => (1, 3),
         _ => (1, 5),
     }
